@@ -5,7 +5,9 @@ CnStyle / FromChStyle / TimeIDRange / TimeBetweenID are run on boundary-biased i
 layout and epochs from 2000 to 9000 (installed through the public Setup or the hook), every result validated by
 SnowCodec_Trace.  Date forms are kept as returned and decoded (twice) only after all the others were
 rendered, for every second layout; the functions are also called by 4-8 goroutines at once; a call that
-does not return and a panic are events of their own kind."""
+does not return and a panic are events of their own kind.  Switching histories push the same instants
+(same date-form seconds, same ranges, same low bits) through changing layouts back to back - A, B, A ... by
+hook and by Setup - so nothing remembered from an earlier call may survive a layout change."""
 
 
 def run(ctx):
@@ -25,7 +27,7 @@ def run(ctx):
     binary = ctx.go_build("c07")
     tf = ctx.path("codec.ndjson")
     out = ctx.harness(binary, ["-out", tf, "-seed", ctx.seed, "-nts", ctx.q(40, 300), "-raw", ctx.q(60, 400),
-                               "-pairs", ctx.q(150, 1200), "-ranges", ctx.q(120, 900), "-epochs", ctx.q(3, 8)],
+                               "-pairs", ctx.q(150, 1200), "-ranges", ctx.q(120, 900), "-epochs", ctx.q(3, 8), "-switch", ctx.q(400, 4000)],
                       traces=[tf])
     traces = ctx.load_traces(tf)
     rj = ctx.validate(fam, "SnowCodec_Trace", "SnowCodec_Trace.cfg", traces, label="codec", chunk=60000,
